@@ -7,6 +7,7 @@
    statement is checked on the implementation by paired runs (partial). *)
 From Coq Require Import QArith Qminmax List Bool Arith.
 From WSI Require Import Vqip Pow Tank Arc QTank Run TankLaws ArcLaws Erasure QTankErasure.
+From WSI Require Wtw LandV NodeErasure.
 Import ListNotations.
 Open Scope Q_scope.
 
@@ -70,3 +71,21 @@ Example C20_plain_and_decaying_queue_tanks_start_alike : forall cap v w n d d', 
   same_qt (qt_init cap v n d) (qt_init cap w n d').
 Proof. exact sq_init. Qed.
 Print Assumptions C20_plain_and_decaying_queue_tanks_start_alike.
+
+(* node functions (coq/Wtw.v, coq/LandV.v; tied by families wtw and land): the volumes of effluent, liquor and solids of
+   the treatment step depend on the influent volume and the hydraulic shares only - process parameters, pollutant
+   multipliers, qualities and the temperature are unconstrained; the six volumes IHACRES produces on a pervious surface
+   (soil store, infiltration excess, subsurface flow, percolation, rain, evaporation) depend on the soil store's
+   capacity and volume, the weather and the soil parameters only *)
+Theorem C20_treatment_volumes : forall p q influent influent' treated treated' liquor liquor',
+  Wtw.w_ps p == Wtw.w_ps q -> Wtw.w_lmvol p == Wtw.w_lmvol q -> same_vol influent influent' -> same_vol treated treated' ->
+  let r := Wtw.w_treat p influent treated liquor in let r' := Wtw.w_treat q influent' treated' liquor' in
+  same_vol (fst (fst r)) (fst (fst r')) /\ same_vol (snd (fst r)) (snd (fst r')) /\ same_vol (snd r) (snd r').
+Proof. exact NodeErasure.sv_treat. Qed.
+Print Assumptions C20_treatment_volumes.
+Theorem C20_ihacres_volumes : forall p area t u rain et0 T T' tn tn', NodeErasure.lsame t u ->
+  let '(t1, ex, ssf, pc, pr, ev) := LandV.ihacres p area t rain et0 T tn in
+  let '(u1, ex', ssf', pc', pr', ev') := LandV.ihacres p area u rain et0 T' tn' in
+  NodeErasure.lsame t1 u1 /\ vol ex = vol ex' /\ vol ssf = vol ssf' /\ vol pc = vol pc' /\ pr = pr' /\ ev = ev'.
+Proof. exact NodeErasure.lv_ihacres. Qed.
+Print Assumptions C20_ihacres_volumes.
